@@ -641,10 +641,70 @@ Fixpoint pactions (p : cprog) : list caction :=
   | PExit c => pactions c
   end.
 
-(** one action on a held list; None = the discipline is violated (same tests as [cordered_from]) *)
-Definition cstep (a : caction) (h : list cres) : option (list cres) :=
+(** A generic abstract interpreter over structured programs: abstract states [S] with a boolean
+    equality, a partial transfer function per action ([None] = the property is violated).
+    [acheck p ss] = the set of states after [p] when started in any state of [ss]; None as soon as
+    some path can violate.  A loop needs its entry set to be invariant: every state the body can
+    end in must already be in the entry set.  ([arun] = the concrete run of one action sequence.) *)
+Section AbstractInterpreter.
+  Variable S : Type.
+  Variable seqb : S -> S -> bool.
+  Variable stepf : caction -> S -> option S.
+
+  Fixpoint arun (s : S) (tr : list caction) : option S :=
+    match tr with
+    | [] => Some s
+    | a :: q => match stepf a s with Some s' => arun s' q | None => None end
+    end.
+  Definition smem (x : S) (ss : list S) : bool := existsb (seqb x) ss.
+  Fixpoint sdedup (ss : list S) : list S :=
+    match ss with
+    | [] => []
+    | x :: r => if smem x r then sdedup r else x :: sdedup r
+    end.
+  Fixpoint astep_all (a : caction) (ss : list S) : option (list S) :=
+    match ss with
+    | [] => Some []
+    | x :: r => match stepf a x, astep_all a r with
+                | Some x', Some o => Some (x' :: o)
+                | _, _ => None
+                end
+    end.
+  Fixpoint acheck (p : cprog) (ss : list S) {struct p} : option (list S) :=
+    match p with
+    | PAct a => option_map sdedup (astep_all a ss)
+    | PSeq l =>
+        (fix go (l : list cprog) (ss : list S) : option (list S) :=
+           match l with
+           | [] => Some ss
+           | q :: r => match acheck q ss with Some ss' => go r ss' | None => None end
+           end) l ss
+    | PBranch alts =>
+        option_map sdedup
+          ((fix go (l : list cprog) : option (list S) :=
+              match l with
+              | [] => Some []
+              | q :: r => match acheck q ss, go r with
+                          | Some a, Some b => Some (a ++ b)
+                          | _, _ => None
+                          end
+              end) alts)
+    | PLoop b =>
+        match acheck b ss with
+        | Some ss' => if forallb (fun x => smem x ss) ss' then Some ss else None
+        | None => None
+        end
+    | PExit c => acheck c ss
+    end.
+End AbstractInterpreter.
+Arguments arun {S} stepf s tr.
+Arguments acheck {S} seqb stepf p ss.
+
+(** one action on a held list; None = the discipline is violated (same tests as [cordered_from]);
+    [ok held acquired] is an extra condition on every nesting (used to DERIVE the order) *)
+Definition cstep_g (ok : cres -> cres -> bool) (a : caction) (h : list cres) : option (list cres) :=
   match a with
-  | CAcq r => if forallb (fun x => crank x <? crank r) h then Some (r :: h) else None
+  | CAcq r => if forallb (fun x => (crank x <? crank r) && ok x r) h then Some (r :: h) else None
   | CRel r => if existsb (cres_eqb r) h then Some (cremove1 r h) else None
   | CWaitRel r => match h with
                   | [x] => if cres_eqb x r then Some [] else None
@@ -653,66 +713,72 @@ Definition cstep (a : caction) (h : list cres) : option (list cres) :=
   | CJoin => if forallb (fun x => crank x <? join_rank) h then Some h else None
   | _ => Some h
   end.
-Fixpoint crun (h : list cres) (tr : list caction) : option (list cres) :=
-  match tr with
-  | [] => Some h
-  | a :: q => match cstep a h with Some h' => crun h' q | None => None end
-  end.
-
-(** sets of possible held lists *)
+Definition ok_any (x r : cres) : bool := true.
+Definition cstep : caction -> list cres -> option (list cres) := cstep_g ok_any.
+Definition crun_g (ok : cres -> cres -> bool) : list cres -> list caction -> option (list cres) :=
+  arun (cstep_g ok).
+Definition crun : list cres -> list caction -> option (list cres) := crun_g ok_any.
 Definition hl_eqb (x y : list cres) : bool := list_eqb cres_eqb x y.
-Definition hmem (h : list cres) (hs : list (list cres)) : bool := existsb (hl_eqb h) hs.
-Fixpoint hdedup (hs : list (list cres)) : list (list cres) :=
-  match hs with
-  | [] => []
-  | x :: r => if hmem x r then hdedup r else x :: hdedup r
-  end.
-Fixpoint step_all (a : caction) (hs : list (list cres)) : option (list (list cres)) :=
-  match hs with
-  | [] => Some []
-  | h :: r => match cstep a h, step_all a r with
-              | Some h', Some o => Some (h' :: o)
-              | _, _ => None
-              end
-  end.
+Definition check_g (ok : cres -> cres -> bool) : cprog -> list (list cres) -> option (list (list cres)) :=
+  acheck hl_eqb (cstep_g ok).
+Definition check : cprog -> list (list cres) -> option (list (list cres)) := check_g ok_any.
 
-(** The executable check (abstract interpretation with the SET of possible held lists at every
-    program point): [check p hs] = the set after [p] when started in any list of [hs]; None as soon
-    as some path can violate the discipline.  A loop needs its entry set to be invariant: every
-    held list the body can end with must already be in the entry set. *)
-Fixpoint check (p : cprog) (hs : list (list cres)) {struct p} : option (list (list cres)) :=
-  match p with
-  | PAct a => option_map hdedup (step_all a hs)
-  | PSeq l =>
-      (fix go (l : list cprog) (hs : list (list cres)) : option (list (list cres)) :=
-         match l with
-         | [] => Some hs
-         | q :: r => match check q hs with Some hs' => go r hs' | None => None end
-         end) l hs
-  | PBranch alts =>
-      option_map hdedup
-        ((fix go (l : list cprog) : option (list (list cres)) :=
-            match l with
-            | [] => Some []
-            | q :: r => match check q hs, go r with
-                        | Some a, Some b => Some (a ++ b)
-                        | _, _ => None
-                        end
-            end) alts)
-  | PLoop b =>
-      match check b hs with
-      | Some hs' => if forallb (fun h => hmem h hs) hs' then Some hs else None
-      | None => None
-      end
-  | PExit c => check c hs
-  end.
-
+Definition all_nil (outs : list (list cres)) : bool :=
+  forallb (fun h => match h with [] => true | _ => false end) outs.
 (** every path is Ordered: starts holding nothing, never violates the discipline, ends holding nothing *)
 Definition prog_ordered (p : cprog) : bool :=
-  match check p [[]] with
-  | Some outs => forallb (fun h => match h with [] => true | _ => false end) outs
-  | None => false
+  match check p [[]] with Some outs => all_nil outs | None => false end.
+(** ... and every nesting (held x, acquired r) on every path is one of [allowed] *)
+Definition pair_in (allowed : list (cres * cres)) (x r : cres) : bool :=
+  existsb (fun pr => cres_eqb (fst pr) x && cres_eqb (snd pr) r) allowed.
+Definition prog_nest_ok (allowed : list (cres * cres)) (p : cprog) : bool :=
+  match check_g (pair_in allowed) p [[]] with Some outs => all_nil outs | None => false end.
+
+(** a path chosen by a script: at a branch the next number is the index of the alternative (clamped
+    to the last one), at a loop the number of iterations; when the script is used up, [d] *)
+Fixpoint choose (d : nat) (p : cprog) (sc : list nat) {struct p} : option (list caction * list nat) :=
+  let pop (sc : list nat) := match sc with [] => (d, []) | i :: r => (i, r) end in
+  match p with
+  | PAct a => Some ([a], sc)
+  | PSeq l =>
+      (fix go (l : list cprog) (sc : list nat) : option (list caction * list nat) :=
+         match l with
+         | [] => Some ([], sc)
+         | q :: r => match choose d q sc with
+                     | Some (t1, sc1) => match go r sc1 with
+                                         | Some (t2, sc2) => Some (t1 ++ t2, sc2)
+                                         | None => None
+                                         end
+                     | None => None
+                     end
+         end) l sc
+  | PBranch alts =>
+      let '(i, sc') := pop sc in
+      (fix pick (l : list cprog) (i : nat) : option (list caction * list nat) :=
+         match l, i with
+         | [], _ => None
+         | [q], _ => choose d q sc'
+         | q :: _, O => choose d q sc'
+         | _ :: r, S j => pick r j
+         end) alts i
+  | PLoop b =>
+      let '(n, sc') := pop sc in
+      (fix it (n : nat) (sc : list nat) : option (list caction * list nat) :=
+         match n with
+         | O => Some ([], sc)
+         | S m => match choose d b sc with
+                  | Some (t1, sc1) => match it m sc1 with
+                                      | Some (t2, sc2) => Some (t1 ++ t2, sc2)
+                                      | None => None
+                                      end
+                  | None => None
+                  end
+         end) n sc'
+  | PExit c => choose d c sc
   end.
+Definition path_of (d : nat) (p : cprog) (sc : list nat) : list caction :=
+  match choose d p sc with Some (tr, _) => tr | None => [] end.
+
 (** every action of the program is allowed in a thread that is spawned and joined *)
 Definition prog_worker (p : cprog) : bool :=
   forallb (fun a => match a with
@@ -746,3 +812,87 @@ Fixpoint cerase (c : cres) (tr : list caction) : list caction :=
       end
   end.
 Definition hfilter (c : cres) (h : list cres) : list cres := filter (fun x => negb (cres_eqb x c)) h.
+
+(* ------------------------------------------------------------------ Part 6 *)
+(** The scenario checker over the STRUCTURED table (replaces the flat-table [c08_check] in the
+    shards): every call of the scenario must be known to the generated table by name and its
+    program must be [prog_ordered]; the pool is built from one canonical path per call
+    ([path_of 0]: first alternative, no loop iteration) and [iters] iterations of the ticker
+    program ([path_of 1] with the outer loop count from the script), must be [pool_okb] and is run
+    to completion by the deterministic scheduler.  This is a sanity check of the table against the
+    calls the harness makes (names, drift), NOT evidence that the footprints are what the compiled
+    code does - by C08_no_deadlock the run of a well-formed pool always completes. *)
+Fixpoint pg_lookup (name : String.string) (tbl : list (String.string * cprog)) : option cprog :=
+  match tbl with
+  | [] => None
+  | (n, p) :: r => if String.eqb n name then Some p else pg_lookup name r
+  end.
+Fixpoint thread_prog_p (tbl : list (String.string * cprog)) (cs : list scall) : option (list action) :=
+  match cs with
+  | [] => Some []
+  | (name, b, m, k) :: r =>
+      match pg_lookup name tbl, thread_prog_p tbl r with
+      | Some p, Some q => if prog_ordered p then Some (map (inst b m k) (path_of 0 p []) ++ q) else None
+      | _, _ => None
+      end
+  end.
+Definition scenario_pool_p (tbl : list (String.string * cprog)) (tprog : cprog)
+    (users : list (list scall)) (workers : list (nat * nat)) (iters : nat) : option (list thread) :=
+  let nu := length users in
+  let fix go (us : list (list scall)) : option (list thread) :=
+    match us with
+    | [] => Some []
+    | u :: r => match thread_prog_p tbl u, go r with
+                | Some p, Some ts => Some ({| started := true; held := []; code := p |} :: ts)
+                | _, _ => None
+                end
+    end in
+  match go users with
+  | None => None
+  | Some uts =>
+      Some (uts ++
+            map (fun '(j, (b, m)) =>
+                   {| started := false; held := [];
+                      code := map (inst b m (nu + j)) (path_of 1 tprog [iters]) |})
+                (combine (seq 0 (length workers)) workers))
+  end.
+Definition c08_check_p (tbl : list (String.string * cprog)) (tprog : cprog) (c : c08case) : bool :=
+  match c with
+  | CScenario users workers iters seed completed =>
+      match scenario_pool_p tbl tprog users workers iters with
+      | None => false                      (* a call the generated table does not know / not ordered *)
+      | Some ths =>
+          let total := fold_right (fun t a => length (code t) + a) 0 ths in
+          pool_okb ths && Bool.eqb (all_done (run_all (S total) seed (init ths))) completed
+      end
+  | CLife e interval window exited =>
+      Bool.eqb (life_exits e (N.leb interval window)) exited
+  | CManualTick installed n before after =>
+      N.eqb (Nat.iter n (tick_inner (negb installed)) before) after
+  end.
+
+(** all paths of a loop-free program (None if it contains a loop) *)
+Fixpoint enum (p : cprog) : option (list (list caction)) :=
+  match p with
+  | PAct a => Some [[a]]
+  | PSeq l =>
+      (fix go (l : list cprog) : option (list (list caction)) :=
+         match l with
+         | [] => Some [[]]
+         | q :: r => match enum q, go r with
+                     | Some A, Some B => Some (flat_map (fun t1 => map (fun t2 => t1 ++ t2) B) A)
+                     | _, _ => None
+                     end
+         end) l
+  | PBranch alts =>
+      (fix go (l : list cprog) : option (list (list caction)) :=
+         match l with
+         | [] => Some []
+         | q :: r => match enum q, go r with
+                     | Some A, Some B => Some (A ++ B)
+                     | _, _ => None
+                     end
+         end) alts
+  | PLoop _ => None
+  | PExit c => enum c
+  end.
